@@ -177,6 +177,9 @@ def run_case(case):
 
     mod = _module(case)
     tdt = dwtu.tdt(case['dtype'])
+    if case['k'] % 3 == 0:
+        r.label('after_other_precision_call')
+        dwtu.other_precision_call(mod, [1, 1] + size, tdt)
     refw = wave_ref = ref_wavelet(case)
     r.label('rescaled_filter_bank' if wave_ref is not None and case.get('wave_form') == 'tuple' and
             case.get('fb_scale', [1.0, 1.0]) != [1.0, 1.0] else None)
